@@ -251,6 +251,7 @@ def run_check(chk, tier, seed):
         machinery.append("harness errors in %d plans; first (i=%d): %s" % (len(herrs), herrs[0]["i"], herrs[0]["herr"]))
 
     # 3. triage
+    transient = []
     by_class = {}
     for r in done:
         for x in r["viol"]:
@@ -274,7 +275,15 @@ def run_check(chk, tier, seed):
                 h.append((core.obs_hash(obs2), sorted(y["class"] for y in (v2 or []))))
             orig_hash = [r for r in done if r["i"] == i][0]["ohash"]
             if h[0] != h[1] or h[0][0] != orig_hash or klass not in h[0][1]:
-                machinery.append("non-deterministic alarm: class %s plan %d does not repeat (hashes %s vs %s)" % (klass, i, orig_hash, h))
+                sym = klass + " " + str(x.get("detail", ""))[:160]
+                if h[0] == h[1] and klass not in h[0][1] and any(t in sym for t in ("hang/wall", "hang/cpu", "signal/9")):
+                    # the child was stopped by a resource guard or from outside (wall clock / CPU budget on a starved machine, out-of-memory killer) and two re-runs of the same
+                    # plan agree with each other and end normally: an accident of the host, not of the plan - counted, not reported
+                    transient.append("%s plan %d" % (klass, i))
+                    print("note: %s plan %d ended by an external kill once and normally in two re-runs (host accident, not reported)" % (klass, i))
+                    continue
+                machinery.append("non-deterministic alarm: class %s plan %d does not repeat (hashes %s vs %s); first seen as: %s" % (
+                    klass, i, orig_hash, h, str(x.get("detail", ""))[:300]))
                 break
             small, runs = minimise(chk, plan, klass, *((600, 40) if tier == "quick" else (2000, 120)))
             k = core.match_known(known, klass, chk.plan_features(small))
@@ -341,6 +350,7 @@ def run_check(chk, tier, seed):
         "components_stubbed": chk.components_stubbed,
         "harness_errors": len(herrs),
         "known_findings_hit": dict(sorted(known_hit.items())),
+        "external_kills_not_repeating": transient,
         "violation_classes": sorted(set(v[0] for v in violations)),
     }
     if unclean:
